@@ -250,13 +250,10 @@ func (s *poolState) apply(op poolOp) string {
 		}
 	case 3:
 		// Return must complete for any value, also nil; if the pool keeps it, a later Get may hand it out
-		idle0, _ := hessian.VerifPoolLen(s.pool)
 		if p := core.Catch(func() { s.pool.Return(nil) }); p != "" {
 			return "Return(nil) panicked: " + p
 		}
-		if idle1, _ := hessian.VerifPoolLen(s.pool); idle1 > idle0 {
-			s.w.nils++
-		}
+		s.w.nils++ // the pool may keep it (then a later Get may hand it out) or drop it
 	case 4:
 		o := &otherType{}
 		s.w.foreign[objID(o)] = true
